@@ -108,6 +108,12 @@ type dispHarness struct {
 	b        *eventlogger.Broker
 }
 
+func (h *dispHarness) traceCopy() []string {
+	h.mu.Lock()
+	defer h.mu.Unlock()
+	return append([]string(nil), h.trace...)
+}
+
 func (h *dispHarness) hook(point string, _ eventlogger.PipelineID, nid eventlogger.NodeID) {
 	h.mu.Lock()
 	if h.nEvents == h.cancelAt && h.cancel != nil {
@@ -471,8 +477,20 @@ func runDispatch(c dispCase, seed uint64, st *stats, oracle func(string, ...any)
 	if wantErr != (res.err != nil) {
 		oracle("C02 Send error=%v but completes=%d/%d sinks=%d/%d: %s", res.err, nC, c.thr, nS, c.thrS, c)
 	}
-	if res.err != nil && ctx.Err() != nil && cancelled && !errors.Is(res.err, context.Canceled) {
-		// the context was done when Send returned: the error must wrap it
+	// the context was done when the collector left its loop (the cancellation is in the trace before the
+	// collector's exit; a cancellation that a late hook of the range goroutine delivers after that says
+	// nothing about the error Send had already made up): the error must wrap the context's error
+	cancelBeforeExit := false
+	for _, l := range h.traceCopy() {
+		if l == "cancel" {
+			cancelBeforeExit = true
+			break
+		}
+		if l == "collectCtx" || l == "collectClosed" {
+			break
+		}
+	}
+	if res.err != nil && ctx.Err() != nil && cancelled && (cancelBeforeExit || c.cancelAt == -2) && !errors.Is(res.err, context.Canceled) {
 		oracle("C02 Send error %v does not wrap the context error: %s", res.err, c)
 	}
 	if cancelled {
